@@ -194,6 +194,7 @@ let comp_api : Registry.comp = fun _params ->
        last := st;
        zs resp.Api.rs_status ^ " " ^ print_body resp.Api.rs_body ^ " " ^ sts
     | "http" :: _ -> "-"   (* C12 lines: outside the model *)
+    | "lockstep" :: _ | "par" :: _ | "load" :: _ -> "-"   (* scheduling lines: outside the model *)
     | _ -> failwith ("api: bad op " ^ String.concat " " toks)
 
 let init () = Registry.register "api" comp_api
